@@ -87,6 +87,12 @@ def ensure_icontract() -> None:
     importlib.invalidate_caches()
 
 
+def fresh_nan() -> float:
+    """A NaN that is *not* the math.nan singleton (as decoded from the wire or produced by arithmetic):
+    code that tests `x is math.nan` instead of math.isnan(x) must not get away with it."""
+    return float("nan")
+
+
 def canon(obj: Any) -> str:
     return json.dumps(obj, sort_keys=True, separators=(",", ":"), default=_default)
 
